@@ -149,9 +149,13 @@ def _pools():
     return _sym.ctx().ghost.get("pools", [])
 
 
+import os as _os
+_THOROUGH = _os.environ.get("VERIF_TIER_EFFECTIVE", "quick") == "thorough"
+
+
 @theorem(P, "map-order-and-once")
 def thm_map():
-    for k in range(0, 6):
+    for k in range(0, 9 if _THOROUGH else 6):
         for workers, wtype in ((None, None), (1, "thread"), (3, "process")):
             files = _files(k)
             fs = _fileset()
@@ -166,8 +170,8 @@ def thm_map():
 
 @theorem(P, "imap-lazy-bounded")
 def thm_imap():
-    for k in range(0, 7):
-        for workers in (None, 1, 2, 3):
+    for k in range(0, 10 if _THOROUGH else 7):
+        for workers in ((None, 1, 2, 3, 4, 7) if _THOROUGH else (None, 1, 2, 3)):
             files = _files(k)
             fs = _fileset()
             n0 = len(_pools())
@@ -262,11 +266,16 @@ STRUCTURES = [
 def thm_align():
     ctx = _sym.ctx()
     for si, structure in enumerate(STRUCTURES):
-        if si == 4:
+        if si == 4 and not _THOROUGH:
             continue
         n_p = len(structure)
         n_s = 1 + max(j for row in structure for j in row)
         cases = [((), ())] + [((i,), ()) for i in range(n_p)] + [((), (j,)) for j in range(n_s)] + [((0,), (n_s - 1,))]
+        if _THOROUGH:
+            import itertools as _it
+            files_ = [("p", i) for i in range(n_p)] + [("s", j) for j in range(n_s)]
+            cases = [((), ())] + [(tuple(i for k_, i in sub if k_ == "p"), tuple(j for k_, j in sub if k_ == "s"))
+                                  for r_ in (1, 2, 3) for sub in _it.combinations(files_, r_)]      # every set of up to 3 unreadable files
         for failing_p, failing_s in cases:
             for return_info in (True, False):
                 prim, sec, matches, fp, fsec = _align_case(failing_p, failing_s, return_info, structure)
